@@ -147,7 +147,7 @@ class TmplGen:
                 v = ("static", r.choice(["v", "comp-a", ""]))
             key = (fam if fam not in ("data-", "data:") else "data", camel(name.lower()) if fam == "data-" else name)
             if fam in ("bind:", "catch:", "mut-bind:", "capture-bind:", "capture-catch:", "capture-mut-bind:"):
-                key = ("ev", fam, name)
+                key = ("ev", name)   # one binding per event name and element (the runtime keys dynamic listeners by name)
             if key in used or (fam in ("plain", "model:") and (("plain", name) in used or ("model:", name) in used)):
                 continue
             used.add(key)
